@@ -9,7 +9,9 @@ failed edits included; `ValidHist` only asks that `connect` is applied to stream
 creates a parallel edge.
 
   1. links          `links_consistent_*` (per operation), `links_consistent` (every history),
-                    `disconnect_absent_noop`, `disconnect_raises_iff_absent`, `destroy_succeeds`
+                    `disconnect_absent_noop`, `disconnect_raises_iff_absent`, `destroy_succeeds`,
+                    `destroy_is_selection_of_all`, `destroy_empty_selection_noop`, `destroy_selection_is_disconnects`,
+                    `links_consistent_destroy_selection`, `destroy_selection_succeeds`
   2. per-input state `zip_state_aligned`, `combine_state_aligned`, `state_aligned_history`
   3. delivery       `delivery_follows_current_edges`
   4. combining nodes `zip_remove_drops_only_that_buffer`, `zip_is_function_of_current_inputs`,
@@ -78,6 +80,66 @@ theorem links_consistent_destroy {A : NodeId → Prop} {S : State} (h : Links A 
 /-- ... and it does succeed on consistent, aligned pipelines (for a node whose parents still list it). -/
 theorem destroy_succeeds {A : NodeId → Prop} {S : State} (ha : Aligned G S) (hl : Links A S) {d : NodeId}
     (hd : A d) : (destroy G d S).err = none := destroy_ok G ha hl hd
+
+/-! `d.destroy(streams=sel)` cuts exactly the selected incoming edges. -/
+
+/-- `destroy()` is `destroy(streams=<all upstreams>)`. -/
+theorem destroy_is_selection_of_all (d : NodeId) (S : State) : destroy G d S = destroySel G (S.loc d).ups d S := rfl
+
+/-- An empty selection (`destroy(streams=[])`, `destroy(streams=())`) changes nothing, logs nothing, raises nothing. -/
+theorem destroy_empty_selection_noop (d : NodeId) (S : State) :
+    (destroySel G [] d S).st = S ∧ (destroySel G [] d S).log = [] ∧ (destroySel G [] d S).err = none :=
+  ⟨rfl, rfl, rfl⟩
+
+/-- `destroy(streams=u :: us)` is `u.disconnect(d)` followed by `destroy(streams=us)`; a failing disconnect
+(an edge that does not exist: KeyError) ends it there. -/
+theorem destroy_selection_is_disconnects (u : NodeId) (us : List NodeId) (d : NodeId) (S : State) :
+    destroySel G (u :: us) d S =
+      (match (disconnect G u d S).err with
+       | some _ => disconnect G u d S
+       | none => { st := (destroySel G us d (disconnect G u d S).st).st,
+                   log := (disconnect G u d S).log ++ (destroySel G us d (disconnect G u d S).st).log,
+                   err := (destroySel G us d (disconnect G u d S).st).err }) := by
+  simp only [destroySel, destroyLoop]
+  generalize (disconnect G u d S).err = e
+  cases e <;> rfl
+
+/-- A successful `d.destroy(streams=sel)`: consistency is kept; `d`'s parents are its old parents minus the selection;
+no selected stream lists `d` as a child any more; every stream outside the selection keeps its child list; no other
+node's parent list changes.  In particular delivery (`delivery_follows_current_edges`) follows exactly the remaining edges. -/
+theorem links_consistent_destroy_selection {A : NodeId → Prop} {S : State} (h : Links A S) {d : NodeId}
+    {sel : List NodeId} (hok : (destroySel G sel d S).err = none) :
+    Links A (destroySel G sel d S).st ∧
+      ((destroySel G sel d S).st.loc d).ups = sel.foldl List.erase (S.loc d).ups ∧
+      (∀ x, x ≠ d → ((destroySel G sel d S).st.loc x).ups = (S.loc x).ups) ∧
+      (∀ u ∈ sel, d ∉ (destroySel G sel d S).st.downs u) ∧
+      (∀ x, x ∉ sel → (destroySel G sel d S).st.downs x = S.downs x) := by
+  refine ⟨destroyLoop_inv G (Links A) d (fun _ _ hP he => hP.of_disconnect G he) _ S h hok, ?_, ?_, ?_, ?_⟩
+  · have := destroyLoop_ups_erase G d sel S hok d
+    rwa [if_pos rfl] at this
+  · intro x hx
+    have := destroyLoop_ups_erase G d sel S hok x
+    rwa [if_neg hx] at this
+  · exact fun u hu => h.destroyLoop_removed G d sel S hok u hu
+  · exact fun x hx => destroyLoop_downs_other G d sel S hok x hx
+
+/-- ... and it succeeds on consistent, aligned pipelines whenever the selection lists current parents of `d`, each once. -/
+theorem destroy_selection_succeeds {A : NodeId → Prop} {S : State} (ha : Aligned G S) (hl : Links A S) {d : NodeId}
+    (hd : A d) {sel : List NodeId} (hn : sel.Nodup) (hs : ∀ u ∈ sel, u ∈ (S.loc d).ups) :
+    (destroySel G sel d S).err = none := by
+  induction sel generalizing S with
+  | nil => rfl
+  | cons u us ih =>
+    have hu : d ∈ S.downs u := hl.bwd u d hd (hs u List.mem_cons_self)
+    have he := disconnect_ok_of_edge G ha hl hu
+    have hrest : (destroySel G us d (disconnect G u d S).st).err = none := by
+      refine ih (ha.of_disconnect G hl he) (hl.of_disconnect G he) (List.nodup_cons.1 hn).2 ?_
+      intro v hv
+      rw [disconnect_ok_ups G he, if_pos rfl]
+      have hvu : v ≠ u := fun hvu => (List.nodup_cons.1 hn).1 (hvu ▸ hv)
+      exact (List.mem_erase_of_ne hvu).2 (hs v (List.mem_cons_of_mem _ hv))
+    rw [destroy_selection_is_disconnects, he]
+    exact hrest
 
 /-- Garbage collection: consistency is kept for the nodes that are alive; dead nodes vanish from their parents'
 child lists but keep their own parent lists. -/
@@ -474,6 +536,13 @@ example := delivery_follows_current_edges c15G c15Nodes c15_consistent c15_align
 /-- ... and the sink gets the pair: the zip behaved like a zip over (0, 1) holding 10 for input 0 -/
 example : arrivalsAt 3 (emitAt c15G 50 1 (.int 20) [] (runOps c15G c15Nodes c15Ops c15H0).S).log
     = [(2, .tup [.int 10, .int 20], [])] := by decide +kernel
+
+/-- `destroy(streams=[1])` on the zip of the example pipeline: succeeds, the zip keeps parent 0 only, source 1 loses its child,
+source 0 keeps it; `destroy(streams=[])` leaves everything as it is (hypotheses of `links_consistent_destroy_selection` /
+`destroy_selection_succeeds` are satisfiable) -/
+example : (destroySel c15G [1] 2 c15H0.S).err = none ∧ ((destroySel c15G [1] 2 c15H0.S).st.loc 2).ups = [0] ∧
+    (destroySel c15G [1] 2 c15H0.S).st.downs 0 = [2] ∧ (destroySel c15G [1] 2 c15H0.S).st.downs 1 = [] ∧
+    ((destroySel c15G [] 2 c15H0.S).st.loc 2).ups = [0, 1] := by decide +kernel
 
 /-- The recorded defect at pipeline level: after `emit 0 10; disconnect 1 2` the zip is a zip over source 0
 alone whose only deque is non-empty; nothing source 0 emits afterwards ever reaches the sink. -/
